@@ -1237,21 +1237,28 @@ fn gen(rng: &mut Rng, n: usize) -> Vec<Case> {
         ["=auto", "", "", "", "1"],
         ["", "=input", "", "set", ""],
     ];
+    let mut det: Vec<Case> = Vec::new();
     for (i, src) in shapes.iter().enumerate() {
         for (j, l) in lines.iter().enumerate() {
             let ac = AUTOCRLF[(i + j) % 3];
             let ce = COREEOL[(i + 2 * j) % 3];
             let sc = SAFECRLF[(i + j / 3) % 3];
-            out.push(vec![tag("togit"), tag(l[0]), tag(l[1]), tag(l[2]), tag(l[3]), tag(l[4]), tag(ac), tag(ce), tag(sc), vec![], vec![], src.to_vec()]);
-            out.push(vec![tag("towt"), tag(l[0]), tag(l[1]), tag(l[2]), tag(l[3]), tag(l[4]), tag(ac), tag(ce), blob_hex(src), src.to_vec()]);
+            det.push(vec![tag("togit"), tag(l[0]), tag(l[1]), tag(l[2]), tag(l[3]), tag(l[4]), tag(ac), tag(ce), tag(sc), vec![], vec![], src.to_vec()]);
+            det.push(vec![tag("towt"), tag(l[0]), tag(l[1]), tag(l[2]), tag(l[3]), tag(l[4]), tag(ac), tag(ce), blob_hex(src), src.to_vec()]);
         }
     }
+    // interleaved with random pipeline cases (half of them with the ident attribute: that part is tested, not proved)
+    let mut det = det.into_iter();
     for _ in 0..(n / 10).max(300) {
-        let ident = rng.chance(1, 3);
+        let ident = rng.chance(1, 2);
         let src = content(rng, ident);
         let c = if rng.chance(1, 2) { case_togit(rng, src, ident) } else { case_towt(rng, src, ident) };
         out.push(c);
+        if let Some(d) = det.next() {
+            out.push(d);
+        }
     }
+    out.extend(det);
     // block B: the text/binary threshold
     for k in 1..=2usize {
         for d in -1i64..=1 {
